@@ -18,7 +18,10 @@ def seeded():
     rows = ["| seed | what was changed | caught | by what |", "|---|---|---|---|"]
     for f in sorted(glob.glob(os.path.join(HERE, "seeded", "*", "meta.json"))):
         m = json.load(open(f))
-        rows.append(f"| {m['id']} | {cell(m['summary'], 300)} | {m['detected_by_check']} | {cell(m['detected_how'], 420)} |")
+        det = m["detected_by_check"]
+        if m.get("obsolete_since"):
+            det += f" (obsolete since {m['obsolete_since']}: {cell(m.get('obsolete_why', ''), 160)})"
+        rows.append(f"| {m['id']} | {cell(m['summary'], 300)} | {det} | {cell(m['detected_how'], 420)} |")
     return "\n".join(rows)
 
 
